@@ -5974,6 +5974,12 @@ class CodegenCtx:
                     transition_body.add(f"goto repeatswitch;");
             else:
                 pass # terminating state
+        else:
+            # A consuming transition taken for the end of input: what counts is whether the program is complete afterwards
+            if transition.target in self.dfa.accepting_states:
+                transition_body.add(f"return {self.program_name.upper()}_DONE;")
+            else:
+                transition_body.add(f"return {self.program_name.upper()}_FAIL;")
         return transition_body.value()
 
     def _generate_condition(self, condition: DFCondition, from_end=False, from_action=False):
@@ -6133,8 +6139,8 @@ class CodegenCtx:
 
         result.add("// possible end transitions")
         
-        # Create all transitions for possible conditions
-        if unconditional_end_transition:
+        # Create all transitions for possible conditions (an accepting state does not treat the end of input as an error: the program is complete)
+        if unconditional_end_transition and not (state in self.dfa.accepting_states and unconditional_end_transition.error_handling):
             result += self._generate_transition_body(unconditional_end_transition, True)
 
         if state in self.dfa.accepting_states:
